@@ -1379,6 +1379,8 @@ fn gen_cycles(rng: &mut Rng, tier: Tier, out: &mut Vec<Case>) {
     let cycles = if quick { rng.range(12, 20) } else { rng.range(12, 60) };
     let reopen = *rng.pick(&[0i64, 0, 1, 5, 7]);
     let how = *rng.pick(&["auto", "sess", "batch", "rbk"]);
+    // `rbk` inserts (and rolls back) one more row per cycle: stay below the 255 inserts a table survives
+    let rows = if how == "rbk" && rows + cycles > 250 { 120 } else { rows };
     let line = format!("cycles rows={} cycles={} reopen={} how={}", rows, cycles, reopen, how);
     let mut tags = vec!["cycles".to_string(), "nt".to_string(), format!("how_{}", how), "clean".to_string()];
     if reopen > 0 {
@@ -1392,13 +1394,13 @@ impl Engine for VacuumEngine {
     fn gen_cases(&self, rng: &mut Rng, tier: Tier) -> Vec<Case> {
         let quick = tier == Tier::Quick;
         let mut out = Vec::new();
-        for _ in 0..(if quick { 260 } else { 2600 }) {
+        for _ in 0..(if quick { 900 } else { 9000 }) {
             gen_random(rng, &mut out);
         }
-        for _ in 0..(if quick { 220 } else { 2200 }) {
+        for _ in 0..(if quick { 800 } else { 8000 }) {
             gen_targeted(rng, &mut out);
         }
-        for _ in 0..(if quick { 10 } else { 60 }) {
+        for _ in 0..(if quick { 24 } else { 200 }) {
             gen_cycles(rng, tier, &mut out);
         }
         // more than 255 updates of one row: the u8 version counter overflows whatever VACUUM does (region finding)
